@@ -140,6 +140,7 @@ class _Proxy:
         object.__setattr__(self, "_f", f)
         object.__setattr__(self, "_inj", inj)
         object.__setattr__(self, "_rel", rel)
+        object.__setattr__(self, "_pending", None)
 
     def write(self, data):
         inj = self._inj
@@ -153,6 +154,17 @@ class _Proxy:
             self._f.flush()
             inj.fired.append(["crash", inj.k, "write", j])
             inj._die()
+        if inj.k in inj.faults and isinstance(inj.faults[inj.k], (list, tuple)):
+            # deferred fault: the buffered writer accepts the data (only a prefix, or nothing, reaches the file) and the
+            # error surfaces at the next flush / close of this file -- exactly what ENOSPC does to a small buffered write.
+            # A program that never closes the file explicitly only meets the error in __del__, where it is dropped.
+            e = inj.faults[inj.k][0]
+            if inj.torn:
+                self._f.write(data[:inj.torn])
+                self._f.flush()
+            inj.fired.append(["fault-deferred", inj.k, "write", e])
+            object.__setattr__(self, "_pending", e)
+            return len(data)
         if inj.k in inj.faults:
             e = inj.faults[inj.k]
             # a failing write may have written a prefix already (short write + error)
@@ -166,12 +178,26 @@ class _Proxy:
         return r
 
     def flush(self):
+        if self._pending is not None:
+            raise OSError(self._pending, os.strerror(self._pending))
         return self._f.flush()
 
     def close(self):
         if not self._f.closed:
             self._inj.op("close", self._rel)
-        return self._f.close()
+        r = self._f.close()
+        if self._pending is not None:
+            e = self._pending
+            object.__setattr__(self, "_pending", None)
+            raise OSError(e, os.strerror(e))   # like BufferedWriter.close(): the descriptor is closed, the flush error is raised
+        return r
+
+    def __del__(self):
+        try:
+            if not self._f.closed:
+                self.close()
+        except BaseException:  # noqa: BLE001  -- IOBase.__del__ drops errors of the implicit close
+            pass
 
     def __enter__(self):
         return self
